@@ -86,6 +86,11 @@ def c16(cx):
             except BaseException as e:
                 vals.append('EXC ' + type(e).__name__)
         stats['byte_forms'] += 1
+        if '//' in b64 and any(v != hx for v in vals):
+            # known finding F20: `//` inside a base64 literal is taken for the start of a comment
+            if all(v == hx for f, v in zip(forms, vals) if 'base64' not in f and 'b64' not in f):
+                cx.known_seen['F20'] = f"a base64 byte literal containing `//` ({b64}) is cut as if a comment started there (ParseError)"
+                continue
         if any(v != hx for v in vals):
             cx.violations.append({'kind': 'byte-literal', 'program': str(forms), 'prop': 'C16', 'field': 'byte', 'where': hx,
                                   'detail': f"forms of {hx} parse to {vals}", 'src': str(forms), 'env': None})
